@@ -7,7 +7,7 @@ package main
 // hex digits; geometries in the shared prefix format of proto.go):
 //
 //   C03 rt <nL> { <name> <version> <extent> <nF> { <id> <gval> <nP> { <key> <pval> } } }
-//       => M <ok|err:<class>|panic> ; D <0|1> ; VT <tile> ; U <outcome> ; G <same|outcome>
+//       => M <ok|err:<class>|panic> ; D <0|1|g> ; VT <tile> ; U <outcome> ; G <same|outcome> ; Z <len> <gzipped len>
 //   id    : - | i:<kind>:<int> | u:<kind>:<nat> | f64:<bits> | f32:<bits> | s:<hstr> | o
 //   pval  : s:<hstr> | b:<0|1> | i:<kind>:<int> | u:<kind>:<nat> | f32:<bits> | f64:<bits> | nil
 //           | j:<shape>:<hstr json text> | jbad | x:<tag> | str:<type>:<hstr of String()>
@@ -579,8 +579,10 @@ func c03RunRT(in []string) string {
 	u := guard(func() string { l, err := mvt.Unmarshal(data); return c03Outcome(l, err) })
 	out += " ; U " + u
 	gzDet := true
+	gzLen := 0
 	g := guard(func() string {
 		gz, c := c03Marshal(ls, 0, true)
+		gzLen = len(gz)
 		if c != "ok" {
 			return "marshalgz-" + c
 		}
@@ -600,7 +602,8 @@ func c03RunRT(in []string) string {
 	if det && !gzDet {
 		out = strings.Replace(out, " ; D 1", " ; D g", 1)
 	}
-	return out + " ; G " + g
+	// Z: length of the tile and of its gzipped form (the driver tags the compression ratio)
+	return out + " ; G " + g + fmt.Sprintf(" ; Z %d %d", len(data), gzLen)
 }
 
 // c03RunRawStr: layer name, key and string value as raw bytes (possibly not UTF-8).
@@ -1292,8 +1295,18 @@ func genC03(c *Ctx) {
 			}
 		}
 	}
+	// small rings far from the origin; highly repetitive (and equally large incompressible) tiles
+	// through the gzipped round trip (c03_far_rep.go)
+	c03FarFixed(c, &n)
+	c03RepFixed(c, &n)
 	for i := 0; i < c.Budget && !c.Exhausted(); i++ {
 		c.Case("rt", c03ShowLayers(c03GenLayers(rng, i%3 != 2)))
+		if i%4 == 0 {
+			c.Case("rt", c03ShowLayers(c03FarRandom(rng)))
+		}
+		if i%100 == 1 {
+			c.Case("rt", c03ShowLayers(c03RepRandom(rng)))
+		}
 	}
 	genC03Wire(c)
 }
